@@ -916,7 +916,7 @@ func g8Dispatch(r *Repo, rep *Report) {
 		info := b.Pkg.TypesInfo
 		var g *Graph
 		inspectOwn(b.Block, func(x ast.Node) bool {
-			rs, ok := x.(*ast.RangeStmt)
+			rs, ok := asWalkLoop(info, x)
 			if !ok {
 				return true
 			}
@@ -936,7 +936,7 @@ func g8Dispatch(r *Repo, rep *Report) {
 			// only the innermost loop around the test is the dispatch loop
 			inner := false
 			inspectOwn(rs.Body, func(y ast.Node) bool {
-				if r2, ok := y.(*ast.RangeStmt); ok && r2.Pos() <= test.Pos() && test.End() <= r2.End() {
+				if r2, ok := asWalkLoop(info, y); ok && r2.Pos() <= test.Pos() && test.End() <= r2.End() {
 					inner = true
 				}
 				return true
@@ -992,14 +992,14 @@ func g8Dispatch(r *Repo, rep *Report) {
 			}
 			var head *cfg.Block
 			for _, blk := range g.Blocks {
-				if blk.Kind == cfg.KindRangeLoop && blk.Stmt == ast.Stmt(rs) {
+				if (blk.Kind == cfg.KindRangeLoop || blk.Kind == cfg.KindForLoop) && blk.Stmt == rs.Stmt {
 					head = blk
 				}
 			}
 			// stay inside this loop: its done-block is an exit, not a way round an enclosing loop
 			// (a block that belongs to a statement outside the loop has left it too: a labelled break, a return)
 			reach := g.reachable([]*cfg.Block{match}, func(x *cfg.Block) bool {
-				if x.Kind == cfg.KindRangeDone && x.Stmt == ast.Stmt(rs) {
+				if (x.Kind == cfg.KindRangeDone || x.Kind == cfg.KindForDone) && x.Stmt == rs.Stmt {
 					return true
 				}
 				return x.Stmt != nil && (x.Stmt.Pos() < rs.Pos() || x.Stmt.Pos() >= rs.End())
@@ -1077,7 +1077,11 @@ func g8Dispatch(r *Repo, rep *Report) {
 		}
 		info := b.Pkg.TypesInfo
 		rangeVals := map[types.Object]bool{}
+		indexed := map[string]bool{} // text of X[i] for the index walks over a slice X
 		inspectOwn(b.Block, func(x ast.Node) bool {
+			if wl, ok := asWalkLoop(info, x); ok && wl.Idx != nil {
+				indexed[exprStr(wl.X)+"["+wl.Idx.Name()+"]"] = true
+			}
 			if rs, ok := x.(*ast.RangeStmt); ok && rs.Value != nil {
 				if id, ok := rs.Value.(*ast.Ident); ok {
 					if t := info.TypeOf(rs.X); t != nil {
@@ -1103,6 +1107,10 @@ func g8Dispatch(r *Repo, rep *Report) {
 				return true
 			}
 			if id, ok := ast.Unparen(sel.X).(*ast.Ident); ok && (rangeVals[info.Uses[id]] || walkParams[info.Uses[id]]) {
+				rep.pass("G8")
+				return true
+			}
+			if ix, ok := ast.Unparen(sel.X).(*ast.IndexExpr); ok && indexed[exprStr(ix)] {
 				rep.pass("G8")
 				return true
 			}
@@ -1761,4 +1769,45 @@ func g8PrefixOpaqueSelfTest() bool {
 		return true
 	})
 	return found
+}
+
+
+// walkLoop: a loop that visits the elements of a slice X front to back — `for [i], v := range X`, `for i := range X`
+// or `for i := 0; i < len(X); i++`.
+type walkLoop struct {
+	Stmt ast.Stmt
+	Body *ast.BlockStmt
+	X    ast.Expr
+	Idx  types.Object // the index variable, if any
+}
+
+func (w *walkLoop) Pos() token.Pos { return w.Stmt.Pos() }
+func (w *walkLoop) End() token.Pos { return w.Stmt.End() }
+
+func asWalkLoop(info *types.Info, n ast.Node) (*walkLoop, bool) {
+	switch lp := n.(type) {
+	case *ast.RangeStmt:
+		w := &walkLoop{Stmt: lp, Body: lp.Body, X: lp.X}
+		if k, ok := lp.Key.(*ast.Ident); ok && lp.Key != nil && k.Name != "_" {
+			w.Idx = objOf(info, k)
+		}
+		return w, true
+	case *ast.ForStmt:
+		if lp.Init == nil || lp.Cond == nil || lp.Post == nil {
+			return nil, false
+		}
+		init, ok1 := lp.Init.(*ast.AssignStmt)
+		cond, ok2 := ast.Unparen(lp.Cond).(*ast.BinaryExpr)
+		post, ok3 := lp.Post.(*ast.IncDecStmt)
+		if !ok1 || !ok2 || !ok3 || len(init.Lhs) != 1 || len(init.Rhs) != 1 || exprStr(init.Rhs[0]) != "0" || cond.Op != token.LSS || post.Tok != token.INC {
+			return nil, false
+		}
+		iv, isI := init.Lhs[0].(*ast.Ident)
+		lc, isL := ast.Unparen(cond.Y).(*ast.CallExpr)
+		if !isI || !isL || exprStr(lc.Fun) != "len" || len(lc.Args) != 1 || exprStr(cond.X) != iv.Name || exprStr(post.X) != iv.Name {
+			return nil, false
+		}
+		return &walkLoop{Stmt: lp, Body: lp.Body, X: lc.Args[0], Idx: objOf(info, iv)}, true
+	}
+	return nil, false
 }
